@@ -239,3 +239,33 @@ def c17(case):
         return {"exc": "none", "out": [ids.get(id(o), 0) for o in after]}
     except Exception as e:  # noqa
         return _exc(e)
+
+
+# ---------------------------------------------------------------------------
+# C01: documented layouts
+
+def c01(case):
+    import pytrs
+    from . import plssdoc
+    a = case["args"]
+    doc = a["doc"]
+    doc["blocks"] = {int(k): v for k, v in doc["blocks"].items()}
+    out = {"exc": "none", "pretty_exc": "none", "tracts": [], "pretty": [], "obs_layout": "?", "n_e": 0}
+    try:
+        d = pytrs.PLSSDesc(a["text"])
+        out["obs_layout"] = d.current_layout
+        out["n_e"] = len(d.e_flags)
+        out["e_flags"] = [str(f)[:80] for f in d.e_flags][:5]
+        out["tracts"] = plssdoc.project_tracts(d.tracts, doc)
+        out["raw"] = [(t.trs, t.desc) for t in d.tracts][:12]
+    except Exception as e:  # noqa
+        out.update(_exc(e))
+        return out
+    try:
+        pretty = d.pretty_desc()
+        d2 = pytrs.PLSSDesc(pretty)
+        out["pretty"] = plssdoc.project_tracts(d2.tracts, doc, ws_insensitive=True)
+        out["pretty_text"] = pretty[:300]
+    except Exception as e:  # noqa
+        out["pretty_exc"] = type(e).__name__
+    return out
